@@ -11,7 +11,7 @@ Cfg(p, s, k) == [proto |-> p, svc |-> s, kinds |-> k]
 AllConfigs ==
     { Cfg("h2", "speed", << "dl", "ul", "dl" >>), Cfg("h2", "speed", << "ul", "dl" >>), Cfg("h2", "ping", << "rq", "rq" >>),
       Cfg("h2", "tunnel", << "ct", "ct" >>),
-      Cfg("h1", "speed", << "dl" >>), Cfg("h1", "speed", << "ul" >>), Cfg("h1", "ping", << "rq" >>),
+      Cfg("h1", "speed", << "dl" >>), Cfg("h1", "speed", << "ul" >>), Cfg("h1", "ping", << "rq" >>), Cfg("h1", "rproxy", << "rp" >>),
       Cfg("h3", "speed", << "ul", "ul" >>), Cfg("h3", "ping", << "rq" >>), Cfg("h3", "tunnel", << "ct" >>) }
 
 \* thorough tier: one more stream per HTTP/2 session kind
